@@ -379,6 +379,52 @@ fn synthetic_gsub() -> Vec<u8> {
     g.done()
 }
 
+/// GSUB larger than 64 KiB: two Extension lookups (liga -> lookup 0: a->b, calt -> lookup 1: b->c) whose SingleSubst
+/// subtables - and therefore their Coverage tables - lie exactly `distance` bytes apart. The Coverage/ClassDef object
+/// caches are keyed by table offset; any key that loses high bits makes the two collide, and which coverage is returned
+/// then depends on which lookup a history touched first.
+fn big_gsub(distance: usize) -> Vec<u8> {
+    let mut sl = W::new();
+    sl.u16(1).tag(tag::DFLT).u16(8);
+    sl.u16(4).u16(0).u16(0).u16(0xFFFF).u16(2).u16(0).u16(1); // default LangSys: features 0, 1
+    let sl = sl.done();
+    let mut fl = W::new();
+    fl.u16(2).tag(tag::CALT).u16(14).tag(tag::LIGA).u16(20);
+    fl.u16(0).u16(1).u16(1); // calt: lookup 1
+    fl.u16(0).u16(1).u16(0); // liga: lookup 0
+    let fl = fl.done();
+    let h = 10usize;
+    let ll_off = h + sl.len() + fl.len();
+    // lookup list: 2 lookups, each type 7 with one ExtensionSubst subtable (8 bytes)
+    let l0 = 2 + 2 * 2; // offset of lookup 0 within the lookup list
+    let l1 = l0 + 8 + 8;
+    let sub_a_abs = 0x200usize; // absolute offset of SingleSubst A within GSUB
+    let sub_b_abs = sub_a_abs + distance;
+    let ext0_abs = ll_off + l0 + 8;
+    let ext1_abs = ll_off + l1 + 8;
+    let mut ll = W::new();
+    ll.u16(2).u16(l0 as u16).u16(l1 as u16);
+    ll.u16(7).u16(0).u16(1).u16(8); // lookup 0: type 7, flag 0, 1 subtable at 8
+    ll.u16(1).u16(1).u32((sub_a_abs - ext0_abs) as u32); // ExtensionSubst: format 1, type 1, offset32
+    ll.u16(7).u16(0).u16(1).u16(8);
+    ll.u16(1).u16(1).u32((sub_b_abs - ext1_abs) as u32);
+    let ll = ll.done();
+    let mut g = W::new();
+    g.u16(1).u16(0).u16(h as u16).u16((h + sl.len()) as u16).u16(ll_off as u16);
+    g.bytes(&sl).bytes(&fl).bytes(&ll);
+    let mut g = g.done();
+    assert!(g.len() <= sub_a_abs);
+    g.resize(sub_a_abs, 0);
+    let mut a = W::new();
+    a.u16(1).u16(6).i16(1).u16(1).u16(1).u16(1); // SingleSubst 1: coverage at 6, delta +1; Coverage 1: [glyph 1]
+    g.extend_from_slice(&a.done());
+    g.resize(sub_b_abs, 0);
+    let mut b = W::new();
+    b.u16(1).u16(6).i16(1).u16(1).u16(1).u16(2); // delta +1; Coverage: [glyph 2]
+    g.extend_from_slice(&b.done());
+    g
+}
+
 fn fvar_one_axis() -> Vec<u8> {
     let mut w = W::new();
     w.u16(1).u16(0).u16(16).u16(2).u16(1).u16(20).u16(0).u16(8);
@@ -407,6 +453,8 @@ fn subjects(ctx: &Ctx) -> Vec<Subject> {
             shape("ab", otmodel::tag(b"zzzz"), None, FeatSel::Custom(vec![]), None),
             Op::Lookup { ch: '\u{25CC}', required: true, vs: Some(16) },
             Op::Lookup { ch: '\u{25CC}', required: false, vs: None },
+            Op::Lookup { ch: '\u{25CC}', required: false, vs: Some(16) },
+            Op::Lookup { ch: '\u{25CC}', required: false, vs: Some(15) },
             Op::Lookup { ch: 'a', required: false, vs: None },
             Op::MapGlyphs { text: "a\u{25CC}", script: tag::DFLT, required: false },
             Op::HAdvance(2),
@@ -431,6 +479,9 @@ fn subjects(ctx: &Ctx) -> Vec<Subject> {
             Op::Lookup { ch: '\u{25CC}', required: true, vs: Some(16) },
             Op::Lookup { ch: '\u{25CC}', required: false, vs: None },
             Op::Lookup { ch: '\u{25CC}', required: true, vs: Some(15) },
+            Op::Lookup { ch: '\u{25CC}', required: false, vs: Some(16) },
+            Op::Lookup { ch: '\u{25CC}', required: false, vs: Some(15) },
+            Op::MapGlyphs { text: "\u{25CC}\u{FE0F}", script: dev2, required: false },
             Op::MapGlyphs { text: "\u{25CC}\u{93F}", script: dev2, required: true },
         ];
         if thorough {
@@ -493,6 +544,25 @@ fn subjects(ctx: &Ctx) -> Vec<Subject> {
             Op::HAdvance(1),
         ];
         v.push(Subject { name: "SymbolTest".into(), data, filter: None, ops });
+    }
+    // 7. layout tables beyond 64 KiB / 16 MiB: object caches keyed by table offset must not confuse tables whose
+    //    offsets agree in their low bits
+    for (nm, distance) in [("gsub-subtables-65536-apart", 0x1_0000usize), ("gsub-subtables-131072-apart", 0x2_0000), ("gsub-subtables-16MiB-apart", 0x100_0000)] {
+        if distance > 0x2_0000 && !thorough {
+            continue;
+        }
+        let cmap = [(b'a' as u32, 1u16), (b'b' as u32, 2), (b'c' as u32, 3), (0x25CC, 4)];
+        let data = otmodel::tables::minimal_font(5, &cmap, &[(tag::GSUB, big_gsub(distance))]);
+        let shape = |text, feats| Op::Shape { text, script: tag::DFLT, lang: None, feats, tuple: None, kerning: true };
+        let ops = vec![
+            shape("ab", FeatSel::Custom(vec![tag::LIGA])),
+            shape("ab", FeatSel::Custom(vec![tag::CALT])),
+            shape("ba", FeatSel::Custom(vec![tag::CALT, tag::LIGA])),
+            shape("ab", FeatSel::Mask(dflt)),
+            shape("b", FeatSel::Custom(vec![tag::CALT])),
+            Op::Tables,
+        ];
+        v.push(Subject { name: format!("synthetic-{}", nm), data, filter: None, ops });
     }
     // 6. fonts that load but carry a lazily loaded table that is present and unparsable: the first query reports the
     //    parse error; every later query must report it again (a failed load must not be remembered as "table absent")
